@@ -241,6 +241,7 @@ func (c *Client) Close() error {
 	// rem() should be unblocking receiveLoop if it is blocked.
 	//
 	// receiveLoop should then exit gracefully.
+	vhook("CloseDonePre")
 	close(c.done)
 
 	// Wait for receiveLoop to stop.
@@ -264,17 +265,20 @@ func (c *Client) receiveLoop() {
 			if !c.isClosed() {
 				c.logger.Printf("error reading from UDP connection: %v", err)
 			}
+			vhook("LoopExit")
 			return
 		}
 
 		msg, err := dhcpv4.FromBytes(b[:n])
 		if err != nil {
 			// Not a valid DHCP packet; keep listening.
+			vhook("LoopDrop", "undecodable")
 			continue
 		}
 
 		if msg.OpCode != dhcpv4.OpcodeBootReply {
 			// Not a response message.
+			vhook("LoopDrop", "opcode")
 			continue
 		}
 
@@ -283,19 +287,24 @@ func (c *Client) receiveLoop() {
 		// server is spec-compliant for the HWAddr field.
 		if c.ifaceHWAddr != nil && !bytes.Equal(c.ifaceHWAddr, msg.ClientHWAddr) {
 			// Not for us.
+			vhook("LoopDrop", "hwaddr")
 			continue
 		}
 
+		vhook("LoopPreLock", msg)
 		c.pendingMu.Lock()
 		p, ok := c.pending[msg.TransactionID]
+		vhook("LoopLocked", msg, ok)
 		if ok {
 			select {
 			case <-p.done:
+				vhook("LoopCloseEntry", msg, p.ch)
 				close(p.ch)
 				delete(c.pending, msg.TransactionID)
 
 			// This send may block.
 			case p.ch <- msg:
+				vhook("LoopDelivered", msg, p.ch)
 			}
 		}
 		c.pendingMu.Unlock()
@@ -563,8 +572,10 @@ func (err *ErrTransactionIDInUse) Error() string {
 // The returned lambda function must be called after all desired responses have
 // been received in order to return the Transaction ID to the usable pool.
 func (c *Client) send(dest *net.UDPAddr, msg *dhcpv4.DHCPv4) (resp <-chan *dhcpv4.DHCPv4, cancel func(), err error) {
+	vhook("SendPreLock", msg)
 	c.pendingMu.Lock()
 	if _, ok := c.pending[msg.TransactionID]; ok {
+		vhook("SendRefused", msg)
 		c.pendingMu.Unlock()
 		return nil, nil, &ErrTransactionIDInUse{msg.TransactionID}
 	}
@@ -572,6 +583,7 @@ func (c *Client) send(dest *net.UDPAddr, msg *dhcpv4.DHCPv4) (resp <-chan *dhcpv
 	ch := make(chan *dhcpv4.DHCPv4, c.bufferCap)
 	done := make(chan struct{})
 	c.pending[msg.TransactionID] = &pendingCh{done: done, ch: ch}
+	vhook("SendRegistered", msg, ch)
 	c.pendingMu.Unlock()
 
 	cancel = func() {
@@ -581,16 +593,21 @@ func (c *Client) send(dest *net.UDPAddr, msg *dhcpv4.DHCPv4) (resp <-chan *dhcpv
 		// send on ch. We gotta unblock it first, and then we can take
 		// the lock and remove the XID from the pending transaction
 		// map.
+		vhook("CancelPre", msg, ch)
 		close(done)
 
+		vhook("CancelPreLock", msg, ch)
 		c.pendingMu.Lock()
 		if p, ok := c.pending[msg.TransactionID]; ok {
+			vhook("CancelRemoved", msg, p.ch)
 			close(p.ch)
 			delete(c.pending, msg.TransactionID)
 		}
+		vhook("CancelLockEnd", msg, ch)
 		c.pendingMu.Unlock()
 	}
 
+	vhook("SendPreTx", msg)
 	if _, err := c.conn.WriteTo(msg.ToBytes(), dest); err != nil {
 		cancel()
 		return nil, nil, fmt.Errorf("error writing packet to connection: %w", err)
@@ -620,15 +637,19 @@ func (c *Client) SendAndRead(ctx context.Context, dest *net.UDPAddr, p *dhcpv4.D
 		for {
 			select {
 			case <-c.done:
+				vhook("Wake", "closed")
 				return ErrNoResponse
 
 			case <-time.After(timeout):
+				vhook("Wake", "timeout")
 				return errDeadlineExceeded
 
 			case <-ctx.Done():
+				vhook("Wake", "ctx")
 				return ctx.Err()
 
 			case packet := <-ch:
+				vhook("Wake", "recv", packet)
 				if match == nil || match(packet) {
 					c.logger.PrintMessage("received message", packet)
 					response = packet
